@@ -350,11 +350,62 @@ pub fn build(aux: &J) -> W3Prog {
                 text.push_str(&format!("for _ in [1, 2, 3] {{\n    print({la} == {lc})\n    print({la} == {la})\n}}\n"));
                 expect.push_str("false\ntrue\nfalse\ntrue\nfalse\ntrue\n");
             }
+            if m2.len() == m.len() && rng.chance(1, 2) {
+                // two fresh temporaries of the same size iterated one after the other (the
+                // second may be handed the first one's memory)
+                let la = lit_val(&Val::Obj(m.clone()));
+                let lc = lit_val(&Val::Obj(m2.clone()));
+                for (lit, mm) in [(&la, &m), (&lc, &m2)] {
+                    text.push_str(&format!("for [k, v] in {lit} {{\n    print(k)\n    print(v)\n}}\n"));
+                    for (k, v) in mm.iter() {
+                        expect.push_str(k);
+                        expect.push('\n');
+                        expect.push_str(&render(v));
+                        expect.push('\n');
+                    }
+                }
+                observations.push("for-temporaries".into());
+            }
             if let Some((k, v)) = restore {
                 text.push_str(&format!("{c}[{}] = {}\nprint({a} == {c})\nprint({c} != {b})\n", lit_str(&k), lit_val(&v)));
                 expect.push_str("true\nfalse\n");
             }
             observations.push("==-variant".into());
+        }
+        // printing, then writing into a nested container through an alias, then printing
+        // again: the rendering is a function of the value as it is now
+        if aliased && rng.chance(1, 3) {
+            let nest = format!("nest{oi}");
+            text.push_str(&format!("{nest} := {{\"outer\": {a}, \"list\": [{a}, {b}]}}\nprint({nest})\n"));
+            let mut o = BTreeMap::new();
+            o.insert("outer".to_string(), mv.clone());
+            o.insert("list".to_string(), Val::List(vec![mv.clone(), mv.clone()]));
+            expect.push_str(&render(&Val::Obj(o)));
+            expect.push('\n');
+            let mut m3 = m.clone();
+            // overwrite only int-valued keys: `==` between an int and a container is a type error
+            let int_keys: Vec<&String> = keys.iter().filter(|k| matches!(m[*k], Val::Int(_))).collect();
+            let nk = if !int_keys.is_empty() && rng.chance(1, 2) { int_keys[rng.usize_below(int_keys.len())].clone() } else { format!("added{oi}") };
+            m3.insert(nk.clone(), Val::Int(777));
+            text.push_str(&format!("{a}[{}] = 777\nprint({nest})\nprint({a} == {b})\nprint({nest}.list[0] == {nest}.outer)\n", lit_str(&nk)));
+            let mut o = BTreeMap::new();
+            o.insert("outer".to_string(), Val::Obj(m3.clone()));
+            o.insert("list".to_string(), Val::List(vec![Val::Obj(m3.clone()), mv.clone()]));
+            expect.push_str(&render(&Val::Obj(o)));
+            expect.push('\n');
+            expect.push_str(if Val::Obj(m3.clone()) == mv { "true\n" } else { "false\n" });
+            expect.push_str("true\n");
+            // restore, so that later observations of this object still see the map
+            match m.get(&nk) {
+                Some(orig) => text.push_str(&format!("{a}[{}] = {}\n", lit_str(&nk), lit_val(orig))),
+                None => {
+                    // no delete in the language: rebuild the object from the other construction
+                    text.push_str(&format!("{a} = {{{b}..}}\n"));
+                }
+            }
+            text.push_str(&format!("print({nest}.outer == {b})\n"));
+            expect.push_str(if m.contains_key(&nk) { "true\n" } else { "false\n" });
+            observations.push("print-mutate-print".into());
         }
         if let Some(k) = keys.first() {
             if rng.chance(1, 2) {
